@@ -41,25 +41,28 @@ def key_of_text(text: str):
 
 def make_set(remote_id="ELEC7001", toggle=False, modes=("auto", "dry", "fan", "cool", "heat"),
              tmin=16, tmax=30, coverage=("base", "fan", "swing"), on_coverage=None, fans=("auto", "low", "medium", "high"),
-             with_off=True, with_fun=None, pad=0):
+             with_off=True, with_fun=None, pad=0, odd_coverage=None):
     """Build an IR set dict.
 
     coverage: which key shapes exist for plain keys: 'base' (mode[+temp]), 'fan' (+_fN), 'swing' (+_fN_d1).
     on_coverage: same for `on_`-prefixed keys (toggle sets); None = same as coverage when toggle else nothing.
+    odd_coverage: if given, odd temperatures (and the dry/fan modes) use this coverage instead - a set whose
+                  key coverage is not uniform across temperatures and modes.
     """
     waves = []
     if on_coverage is None:
         on_coverage = coverage if toggle else ()
     for prefix, cov in (("", coverage), ("on_", on_coverage)):
         for m in modes:
-            stems = [MODE_CODE[m] + "%02d" % t for t in range(tmin, tmax + 1)] if m in TEMP_MODES else [MODE_CODE[m]]
-            for stem in stems:
-                if "base" in cov:
+            stems = [(MODE_CODE[m] + "%02d" % t, t % 2 == 1) for t in range(tmin, tmax + 1)] if m in TEMP_MODES else [(MODE_CODE[m], m in ("dry", "fan"))]
+            for stem, odd in stems:
+                c = odd_coverage if (odd and odd_coverage is not None and cov) else cov
+                if "base" in c:
                     waves.append(wave(prefix + stem, pad))
                 for f in fans:
-                    if "fan" in cov:
+                    if "fan" in c:
                         waves.append(wave(prefix + stem + "_" + FAN_CODE[f], pad))
-                    if "swing" in cov:
+                    if "swing" in c:
                         waves.append(wave(prefix + stem + "_" + FAN_CODE[f] + "_d1", pad))
     if with_off and not toggle:
         waves.append(wave("off", pad))
@@ -98,8 +101,7 @@ def capabilities(ir_set):
 def select(ir_set, state_on: bool, mode: str, temp: int, fan: str, swing_on: bool, previous_on):
     """Reference selection.
 
-    Returns ("key", key) | ("unsupported-mode", sorted modes) | ("no-entry", candidates)
-            | ("either", key, modes)  when the statement allows two readings (non-toggle OFF with an unsupported mode).
+    Returns ("key", key) | ("unsupported-mode", sorted modes) | ("no-entry", candidates).
     previous_on: True/False/None (unknown).
     """
     caps = capabilities(ir_set)
@@ -108,12 +110,11 @@ def select(ir_set, state_on: bool, mode: str, temp: int, fan: str, swing_on: boo
     if caps["tmin"] is not None:
         temp = max(caps["tmin"], min(caps["tmax"], temp))
     unsupported = mode not in caps["modes"]
-    if not toggle and not state_on:
-        if unsupported:
-            return ("either", "off", sorted(caps["modes"]))
-        return ("key", "off") if "off" in keys else ("no-entry", ["off"])
     if unsupported:
+        # "an unsupported mode is refused" - unconditionally, also for a plain power-off on a non-toggle remote
         return ("unsupported-mode", sorted(caps["modes"]))
+    if not toggle and not state_on:
+        return ("key", "off") if "off" in keys else ("no-entry", ["off"])
     prefix = "on_" if (toggle and previous_on is not None and previous_on != state_on) else ""
     stem = MODE_CODE[mode] + (str(temp) if mode in TEMP_MODES else "")
     cands = []
